@@ -87,6 +87,8 @@ type Exec struct {
 	nDischarged  int
 	nTrivial     int
 	blocked      int
+	envStack     []VFunc
+	envRunning   bool
 	initStored   map[*ssa.Global]bool
 	initDone     map[*ssa.Global]bool
 	poisoned     map[*ssa.Global]string
@@ -157,6 +159,7 @@ func (e *Exec) runPath(fn *ssa.Function, prefix []bool) {
 	e.encMemo = map[string]Value{}
 	e.hashApps = nil
 	e.nondet = 0
+	e.envStack, e.envRunning = nil, false
 	e.sol.Push()
 	defer e.sol.Pop()
 	e.paths++
@@ -547,8 +550,10 @@ func (e *Exec) runFrame(fr *frame, args []Value) Value {
 				e.storePtr(e.val(fr, in.Addr), e.val(fr, in.Val))
 			case *ssa.Send:
 				ch := e.val(fr, in.Chan).(VChan)
-				if !e.chanSendReady(ch.C) {
-					panic(pathEnd{"BLOCKED on send in " + fn.String()})
+				for !e.chanSendReady(ch.C) {
+					if !e.envStep() {
+						panic(pathEnd{"BLOCKED on send in " + fn.String()})
+					}
 				}
 				ch.C.Q = append(ch.C.Q, e.val(fr, in.X))
 			case *ssa.Go:
@@ -993,8 +998,10 @@ func (e *Exec) unop(fr *frame, in *ssa.UnOp) Value {
 		return e.loadPtr(x)
 	case token.ARROW:
 		ch := x.(VChan)
-		if !e.chanRecvReady(ch.C) {
-			panic(pathEnd{"BLOCKED on receive in " + fr.fn.String()})
+		for !e.chanRecvReady(ch.C) {
+			if !e.envStep() {
+				panic(pathEnd{"BLOCKED on receive in " + fr.fn.String()})
+			}
 		}
 		v, ok := e.chanRecv(ch.C)
 		if in.CommaOk {
@@ -1356,6 +1363,19 @@ func (e *Exec) builtin(b *ssa.Builtin, args []Value, c *ssa.CallCommon) Value {
 			return VInt{lenC(ch.C.Cap)}
 		}
 		return VInt{lenC(args[0].(VSlice).Cap)}
+	case "clear":
+		switch a := args[0].(type) {
+		case VSlice:
+			for i := 0; i < a.Len; i++ {
+				c := a.Arr.Elems[a.Off+i]
+				store(c, zero(c.Typ))
+			}
+		case VMap:
+			if a.M != nil {
+				a.M.Keys, a.M.Vals = nil, nil
+			}
+		}
+		return nil
 	case "copy":
 		dst := args[0].(VSlice)
 		n := dst.Len
@@ -1442,6 +1462,14 @@ func (e *Exec) builtin(b *ssa.Builtin, args []Value, c *ssa.CallCommon) Value {
 	case "delete":
 		e.mapDelete(args[0], args[1])
 		return nil
+	}
+	if b.Name() == "recover" {
+		// Go panics end the path (obligations); a deferred recover() on a path that did not
+		// panic sees nil
+		return zero(types.NewInterfaceType(nil, nil))
+	}
+	if len(args) == 0 {
+		e.fail("builtin %s", b.Name())
 	}
 	e.fail("builtin %s on %T", b.Name(), args[0])
 	return nil
